@@ -160,3 +160,64 @@ Example C19_ex_footprint :
   FootPre.exec (Foot_gen.model_ovni_event (FootProofs.ev_of 65 114 [1; 0; 0; 0])) FootProofs.ok_oracle = EmuCoreDefs.Err FootPre.E_SIZE.
 Proof. vm_compute. repeat split. Qed.
 (* ==== end of block (unit footprint) ==== *)
+
+(* ==== stepping functions from source (unit stepper) ==== *)
+(* stream_step, stream_evclock, stream_lastclock, stream_allow_unsorted, stream_clkoff_set, stream_ev are
+   regenerated from src/emu/stream.c statement by statement (translate/units/stepper.py -> Gen/Stepper_gen.v over
+   Emu/StepperPre.v; ovni_ev_size / next_ev_size are the functions already generated by units loader /
+   loader_step).  The generated stream_step, on a stream whose size is the length of its buffer, with
+   cur_ev NULL or &buf[offset] and clock offset 0 (gwf; StreamDefs has no offsets), from a state of the walk
+   (inv), is StreamDefs.stream_step: same outcome 0 / +1 / -1, same new offset, cur_ev, active and lastclock,
+   deltaclock = the wrap-around difference; the model's OobRead / SOverflow outcomes do not arise (last case).
+   Partial: errors are one class (every `return -1` is Fail E_FAIL), NoProgress is a property of the walk
+   (C19_cursor_advances_partial applies to the model the generated function is equal to). *)
+From OV Require Emu.StepperPre Gen.Stepper_gen Proofs.StepperProofs.
+
+Theorem C19_stream_step_from_source_partial : forall sx st id,
+  (id < length (StepperPre.streams st))%nat ->
+  let g := nth id (StepperPre.streams st) StepperPre.g0 in
+  StepperProofs.gwf id g -> inv (StepperProofs.abs g) -> s_size (StepperProofs.abs g) < 2 ^ 63 ->
+  match stream_step (StepperProofs.abs g), Stepper_gen.stream_step (Some id) sx st with
+  | ROk s', StepperPre.Done _ st' =>
+      exists g', st' = StepperPre.put st id g' /\ StepperProofs.abs g' = s' /\ StepperProofs.gwf id g' /\
+                 StepperPre.g_deltaclock g' =
+                 cast_int64 (cast_uint64 (cast_uint64 (s_lastclock s') - cast_uint64 (StepperPre.g_lastclock g)))
+  | REnd s', StepperPre.Stop st' =>
+      exists g', st' = StepperPre.put st id g' /\ StepperProofs.abs g' = s' /\
+                 StepperPre.g_active g' = 0 /\ StepperPre.g_cur g' = None
+  | RErr _, StepperPre.Fail e => e = StepperPre.E_FAIL
+  | _, _ => False
+  end.
+Proof. exact StepperProofs.stream_step_from_source. Qed.
+Print Assumptions C19_stream_step_from_source_partial.
+
+(* stream_clkoff_set: refused once an event is loaded or when an offset is already set *)
+Theorem C19_stream_clkoff_set_from_source_partial : forall sx st id off,
+  (id < length (StepperPre.streams st))%nat ->
+  Stepper_gen.stream_clkoff_set (Some id) off sx st =
+  let g := nth id (StepperPre.streams st) StepperPre.g0 in
+  if negb (is_null (StepperPre.g_cur g)) then StepperPre.Fail StepperPre.E_FAIL
+  else if negb (StepperPre.g_clkoff g =? 0) then StepperPre.Fail StepperPre.E_FAIL
+  else StepperPre.Done tt (StepperPre.put st id (StepperPre.w_clkoff off g)).
+Proof. exact StepperProofs.stream_clkoff_set_gen. Qed.
+Print Assumptions C19_stream_clkoff_set_from_source_partial.
+
+(* a stream of two 12-byte events (clocks 10 and 30), clock offset -3: the generated stream_step loads
+   them at offsets 8 and 20 with corrected clocks 7 and 27, then returns +1 with active = 0 *)
+Definition ex_gstream : StepperPre.gstream :=
+  StepperPre.mk_gstream (hdr ++ [0; 79; 72; 120; 10; 0; 0; 0; 0; 0; 0; 0] ++ [0; 79; 72; 101; 30; 0; 0; 0; 0; 0; 0; 0])
+    zero_junk None 32 0 0 (-3) 1 0 8.
+Definition ex_world : StepperPre.pstate :=
+  StepperPre.mk_pstate [ex_gstream] (StepperPre.mk_gplayer [] 0 0 0 0 1 0 None None).
+Definition ex_obs (r : StepperPre.res unit) : option (bool * (Z * Z * Z * Z)) :=
+  let o s := let g := nth 0 (StepperPre.streams s) StepperPre.g0 in
+             (StepperPre.g_offset g, StepperPre.g_lastclock g, StepperPre.g_deltaclock g, StepperPre.g_active g) in
+  match r with StepperPre.Done _ s => Some (true, o s) | StepperPre.Stop s => Some (false, o s) | StepperPre.Fail _ => None end.
+Definition ex_next (r : StepperPre.res unit) : StepperPre.res unit :=
+  match r with StepperPre.Done _ s => Stepper_gen.stream_step (Some 0%nat) tt s | r => r end.
+Example C19_ex_stream_step_from_source :
+  let r1 := Stepper_gen.stream_step (Some 0%nat) tt ex_world in
+  ex_obs r1 = Some (true, (8, 7, 7, 1)) /\ ex_obs (ex_next r1) = Some (true, (20, 27, 20, 1)) /\
+  ex_obs (ex_next (ex_next r1)) = Some (false, (32, 27, 20, 0)).
+Proof. vm_compute. auto. Qed.
+(* ==== end of block (unit stepper) ==== *)
